@@ -148,6 +148,18 @@ def run(prop, tier, seed):
     else:
         res.assumptions = ["the wrapped allocator is a logging mock (scripted results incl. null) or, in the whole-process runs, the system allocator behind a logging shim",
                            "pointer values are compared for equality only"]
+        # the wrapper as a state machine (Forward.tla): two threads, new / live / dying thread
+        # records, any answer of the wrapped allocator; three shortcuts must each fail
+        r = V.tlc_mc("MC_Forward", "Forward_q" if tier == "quick" else "Forward_t", workers=8, coverage=False, timeout=3000)
+        res.add_mc("Forward", r)
+        if not r.get("ok"):
+            raise V.ToolError(f"MC_Forward: {r.get('violated') or r.get('error')}")
+        for cfg, want in (("Forward_v_same_size", "OneIdenticalRequest"), ("Forward_v_hide_failed_shrink", "ReturnsTheAnswer"),
+                          ("Forward_v_record_through_self", "NoReentry")):
+            r = V.tlc_mc("MC_Forward", cfg, workers=1, coverage=False)
+            res.extra.setdefault("necessity_variants", []).append({"config": cfg, "expected": [want], "got": r.get("violated")})
+            if r.get("violated") != want:
+                raise V.ToolError(f"{cfg}: expected {want} to fail, got {r.get('violated') or r.get('error')}")
         scs = c09_scenarios(tier, seed)
     trace_path, summary = V.run_driver(scs, f"{prop}.impl")
     res.extra["driver"] = summary
